@@ -70,9 +70,13 @@ class Rule:
                     f"{doc!r}."
                 )
 
-        cast = spec.get("cast")
-        for cast_from in list((cast or {}).keys()):
-            cast_to = cast.pop(cast_from)
+        cast_spec = spec.get("cast")
+        if cast_spec is not None and not isinstance(cast_spec, dict):
+            raise MalformedRuleSpec(
+                f"Rule cast must be a mapping of type names, but found: {cast_spec!r}."
+            )
+        cast = {} if cast_spec is not None else None  # the caller's mapping is not modified
+        for cast_from, cast_to in (cast_spec or {}).items():
             try:
                 cast_from = CAST_DTYPE_LOOKUP[cast_from]
             except KeyError:
